@@ -49,3 +49,66 @@ Example addr_first_misroutes :
   get_conn_id conns [8;8;8] (Some [1;1]) = Some 1 /\
   get_conn_addr_first conns [8;8;8] (Some [1;1]) = Some 2.
 Proof. vm_compute. split; reflexivity. Qed.
+
+(* ---------------------------------------------------------------- learning the ID *)
+
+Lemma bytes_eqb_true x : forall y, bytes_eqb x y = true -> x = y.
+Proof.
+  induction x as [|a x IH]; intros [|b y] H; try discriminate; [reflexivity|].
+  cbn [bytes_eqb] in H. apply andb_prop in H. destruct H as [H1 H2].
+  apply N.eqb_eq in H1. subst. f_equal. now apply IH.
+Qed.
+
+(* a ServerHello that leaves in one piece teaches the listener the ID it carries (or an earlier
+   complete ServerHello already did) *)
+Theorem learned_from_complete ws f c :
+  In f ws -> fr_complete f = true -> fr_cid f = Some c -> exists c', learned ws = Some c'.
+Proof.
+  induction ws as [|g ws IH]; intros Hin Hc Hid; [destruct Hin|].
+  cbn [learned]. destruct (learn_one g) as [c0|] eqn:E; [now exists c0|].
+  destruct Hin as [Hin|Hin]; [|now apply IH].
+  subst g. unfold learn_one in E. rewrite Hc, Hid in E. discriminate.
+Qed.
+
+(* KNOWN GAP K-C15-1: when no written datagram starts with a complete ServerHello - in particular
+   when the ServerHello left in fragments - nothing is learnt ... *)
+Theorem fragmented_never_learned ws :
+  (forall f, In f ws -> fr_sh f = true -> fr_off f <> 0 \/ fr_flen f <> fr_len f) -> learned ws = None.
+Proof.
+  induction ws as [|g ws IH]; intro H; [reflexivity|]. cbn [learned].
+  assert (E : learn_one g = None).
+  { unfold learn_one, fr_complete. destruct (fr_sh g) eqn:Es; [|reflexivity].
+    destruct (H g (or_introl eq_refl) Es) as [H0|H0].
+    - apply N.eqb_neq in H0. now rewrite H0.
+    - apply N.eqb_neq in H0. rewrite H0. now rewrite andb_false_r. }
+  rewrite E. apply IH. intros f Hf. apply H. now right.
+Qed.
+
+(* ... and then a record carrying the connection's ID reaches nobody from any other address
+   (IDs and address strings share the key space of l.conns: the ID is assumed not to spell the
+   address) *)
+Theorem unlearned_id_not_routed addr k ws id src :
+  learned ws = None -> src <> addr -> id <> addr ->
+  get_conn_id (table_after addr k ws) src (Some id) = None.
+Proof.
+  intros HL Hs Hi. unfold table_after. rewrite HL. unfold get_conn_id. cbn [lookup].
+  destruct (bytes_eqb id addr) eqn:E1; [apply bytes_eqb_true in E1; contradiction|].
+  destruct (bytes_eqb src addr) eqn:E2; [apply bytes_eqb_true in E2; contradiction|].
+  reflexivity.
+Qed.
+
+(* the routing statement "whatever the source address" therefore fails for a connection whose
+   ServerHello (message length 1203 > MTU: DTLS 1.3 with a 20-byte server ID at the default MTU)
+   left in two fragments, although that ServerHello carries the ID *)
+Theorem listener_routes_negotiated_id_refuted :
+  let id := [7; 7; 7] in
+  let ws := [mkFR true 0 1200 1203 (Some id); mkFR true 1200 3 1203 (Some id); mkFR false 0 0 0 None] in
+  (exists f, In f ws /\ fr_sh f = true /\ fr_cid f = Some id) /\
+  learned ws = None /\
+  get_conn_id (table_after [1; 1] 0 ws) [2; 2] (Some id) = None /\
+  (* the same ServerHello in one piece is learnt and routed *)
+  get_conn_id (table_after [1; 1] 0 [mkFR true 0 1203 1203 (Some id)]) [2; 2] (Some id) = Some 0.
+Proof.
+  vm_compute. split; [|repeat split; reflexivity].
+  eexists. split; [left; reflexivity|]. split; reflexivity.
+Qed.
